@@ -553,6 +553,9 @@ func TestC20(t *testing.T) {
 			hv = rapid.SampledFrom([]any{"1.2.9223372036854775808", "1.2.18446744073709551616", "1.2.99999999999999999999999999999999999999", "1.2.2147483648", "2.5.4294967296",
 				"1.40.1", "0.40", "1.2147483647.1", "3.1.2", "1.50.3"}).Draw(t, "oidvalue") // arcs too large for gopki, and OIDs no DER encoding exists for
 			c.IsOID = c.Which == ent.File
+		} else if rapid.IntRange(0, 4).Draw(t, "void") == 0 {
+			// nothing where something is expected: the empty string, a blank, null, an empty list or map (often schema-valid)
+			hv = rapid.SampledFrom([]any{"", "", " ", core.RawScalar("null"), core.RawScalar("[]"), core.RawScalar("{}"), core.RawScalar("~"), core.RawScalar("\"\"")}).Draw(t, "voidvalue")
 		} else {
 			hv = hostileValues[rapid.IntRange(0, len(hostileValues)-1).Draw(t, "hostile")]
 		}
